@@ -3,7 +3,7 @@
    depend on the solver and on rule-of-thumb constants of the round glue; they are audited on real runs
    (harness/props/c03.py), not proved.  See DESIGN.md section 5/C03. *)
 From Coq Require Import QArith List Arith String.
-From Allfed Require Import Gen.Shutoff Model.LP Model.Rounds Proofs.LPChar Proofs.Rounds.
+From Allfed Require Import Gen.Shutoff Base.QList Model.LP Model.Rounds Model.MeatDairy Proofs.LPChar Proofs.Rounds Proofs.RoundsComp.
 Import ListNotations.
 Open Scope Q_scope.
 
@@ -78,6 +78,69 @@ Proof.
   - apply animals_pins_meat; assumption.
 Qed.
 Print Assumptions c03_pins.
+
+(* ---------- the three rounds composed (Proofs/RoundsComp.v) ----------
+   The last sentence of the property for rounds 1, 2 and 3 at once, from named facts: the LP invariants (C01), the herd
+   feeding conservation (C07), the round glue (clip, x0.999999999, herd run, bump: C05 / C18) and the demand schedule.
+   Each linking hypothesis is an equation between an LP input field and the corresponding model function; the property
+   whose tie checks that equation on real runs is named in Proofs/RoundsComp.v. *)
+Theorem c03_round1 : forall G i1 a1 xf df xb db N,
+  glue_ok G N -> 0 <= xf -> 0 <= xb ->
+  Feasible i1 ToHumans a1 -> has_nonhuman i1 = true -> 0 < sw_kcals i1 -> NM i1 = N ->
+  (forall m, (m < N)%nat -> at_ (feed_charge i1) m == round1_feed_charge G m) ->
+  (forall m, (m < N)%nat -> at_ (biofuel_charge i1) m == round1_biofuel_charge m) ->
+  c03_clause i1 a1 xf df xb db N /\
+  (forall m, (m < N)%nat -> feed_sum i1 a1 m == 0 /\ biofuel_sum i1 a1 m == 0 /\
+                            feed_vars_zero i1 a1 m /\ biofuel_vars_zero i1 a1 m).
+Proof. exact RoundsComp.c03_round1. Qed.
+Print Assumptions c03_round1.
+
+Theorem c03_round2 : forall G i2 a2 xf df xb db N,
+  glue_ok G N -> 0 <= xf -> 0 <= xb ->
+  Feasible i2 ToAnimals a2 -> has_nonhuman i2 = true -> 0 < sw_kcals i2 -> NM i2 = N ->
+  (forall m, (m < N)%nat -> at_ (max_feed i2) m == round2_max_feed G (demand xf df N) m) ->
+  (forall m, (m < N)%nat -> at_ (max_biofuel i2) m == round2_max_biofuel (demand xb db N) m) ->
+  c03_clause i2 a2 xf df xb db N.
+Proof. exact RoundsComp.c03_round2. Qed.
+Print Assumptions c03_round2.
+
+Theorem c03_round3 : forall G i2 a2 i3 a3 xf df xb db N,
+  glue_ok G N -> 0 <= xf -> 0 <= xb ->
+  c03_clause i2 a2 xf df xb db N ->
+  Feasible i3 ToHumans a3 -> has_nonhuman i3 = true -> 0 < sw_kcals i3 -> NM i3 = N ->
+  let feed2 := tab N (feed_sum i2 a2) in let bio2 := tab N (biofuel_sum i2 a2) in
+  (forall m, (m < N)%nat ->
+     at_ (feed_charge i3) m == round3_feed_charge G feed2 bio2 (demand xf df N) (demand xb db N) m) ->
+  (forall m, (m < N)%nat ->
+     at_ (biofuel_charge i3) m == round3_biofuel_charge G feed2 bio2 (demand xf df N) (demand xb db N) m) ->
+  c03_clause i3 a3 xf df xb db N.
+Proof. exact RoundsComp.c03_round3. Qed.
+Print Assumptions c03_round3.
+
+Theorem c03_all_rounds : forall G i1 a1 i2 a2 i3 a3 xf df xb db N,
+  0 <= xf -> 0 <= xb -> glue_ok G N ->
+  Feasible i1 ToHumans a1 -> Feasible i2 ToAnimals a2 -> Feasible i3 ToHumans a3 ->
+  has_nonhuman i1 = true -> has_nonhuman i2 = true -> has_nonhuman i3 = true ->
+  0 < sw_kcals i1 -> 0 < sw_kcals i2 -> 0 < sw_kcals i3 ->
+  NM i1 = N -> NM i2 = N -> NM i3 = N ->
+  (forall m, (m < N)%nat -> at_ (feed_charge i1) m == round1_feed_charge G m) ->
+  (forall m, (m < N)%nat -> at_ (biofuel_charge i1) m == round1_biofuel_charge m) ->
+  (forall m, (m < N)%nat -> at_ (max_feed i2) m == round2_max_feed G (demand xf df N) m) ->
+  (forall m, (m < N)%nat -> at_ (max_biofuel i2) m == round2_max_biofuel (demand xb db N) m) ->
+  (forall m, (m < N)%nat -> at_ (feed_charge i3) m ==
+     round3_feed_charge G (tab N (feed_sum i2 a2)) (tab N (biofuel_sum i2 a2)) (demand xf df N) (demand xb db N) m) ->
+  (forall m, (m < N)%nat -> at_ (biofuel_charge i3) m ==
+     round3_biofuel_charge G (tab N (feed_sum i2 a2)) (tab N (biofuel_sum i2 a2)) (demand xf df N) (demand xb db N) m) ->
+  c03_clause i1 a1 xf df xb db N /\ c03_clause i2 a2 xf df xb db N /\ c03_clause i3 a3 xf df xb db N.
+Proof. exact RoundsComp.c03_all_rounds. Qed.
+Print Assumptions c03_all_rounds.
+
+Theorem c03_round3_skip : forall G N feed2 bio2 fd bd m, glue_ok G N -> (m < N)%nat ->
+  round2_consts_present (g_tree G) = false -> 0 <= g_const G -> at_ (g_meat3 G) m == at_ (g_meat1 G) m ->
+  0 <= at_ fd m -> 0 <= at_ bd m ->
+  round3_feed_charge G feed2 bio2 fd bd m == 0 /\ round3_biofuel_charge G feed2 bio2 fd bd m == 0.
+Proof. exact RoundsComp.c03_round3_skip. Qed.
+Print Assumptions c03_round3_skip.
 
 (* non-vacuity: a three-month schedule with a two-month shut-off *)
 Example c03_demand_example : demand 5 2 3 = [5; 5; 0].
